@@ -379,8 +379,24 @@ func csObfuscate(plain []byte) []byte {
 // SeacFont draws a font file (no-eexec format) that contains 2-4 accented
 // composite glyphs, possibly nested (a composite whose base or accent is
 // itself a composite, referenced forwards or backwards in name order).
-func SeacFont(t *sim.Tape) ([]byte, string) {
+func SeacFont(t *sim.Tape) ([]byte, string) { return seacFont(t, false) }
+
+// BigSeacFont is SeacFont with well over a hundred glyphs (readers may treat
+// large fonts differently, e.g. decode them in parallel).
+func BigSeacFont(t *sim.Tape) ([]byte, string) { return seacFont(t, true) }
+
+func seacFont(t *sim.Tape, big bool) ([]byte, string) {
 	f := GenFont(t, 5)
+	if big {
+		for i := 0; len(f.Glyphs) < 110+t.Choose(60); i++ {
+			g := &type1.Glyph{WidthX: float64(400 + i%50)}
+			g.MoveTo(float64(i), 0)
+			g.LineTo(float64(i+40), 10)
+			g.LineTo(float64(i+20), float64(100+i))
+			g.ClosePath()
+			f.Glyphs[fmt.Sprintf("%c%cfill%d", 'a'+byte(i%26), 'A'+byte((i/3)%26), i)] = g
+		}
+	}
 	f.Encoding = make([]string, 256)
 	for i := range f.Encoding {
 		f.Encoding[i] = ".notdef"
@@ -402,6 +418,9 @@ func SeacFont(t *sim.Tape) ([]byte, string) {
 		}
 		base = append(base, n)
 	}
+	if len(base) > 100 {
+		base = base[:100] // codes 65..164; the composites use 200..
+	}
 	code := map[string]int{}
 	for i, n := range base {
 		code[n] = 65 + i
@@ -409,6 +428,9 @@ func SeacFont(t *sim.Tape) ([]byte, string) {
 	}
 	compNames := []string{"Acomp", "Zcomp", "Mcomp", "aacute", "Ydieresis", "Bcomp"}
 	k := 2 + t.Choose(3)
+	if big {
+		k = 4 + t.Choose(3)
+	}
 	var comps []string
 	for i := 0; i < k; i++ {
 		n := compNames[(t.Choose(len(compNames))+i)%len(compNames)]
@@ -549,4 +571,59 @@ func AliasFont(t *sim.Tape) []byte {
 	}
 	repl := fmt.Sprintf("dup /%s exch definefont /%s exch definefont pop", a, b)
 	return append(append(append([]byte{}, file[:k]...), repl...), file[k+len(old):]...)
+}
+
+// LenIVFont returns a no-eexec font file whose charstrings carry n lead bytes
+// instead of the default four, announced by `/lenIV n def` in the Private
+// dictionary (legal, rare; the library's writer never produces it).
+func LenIVFont(t *sim.Tape) ([]byte, int) {
+	f := GenFont(t, 5)
+	file, err := FontFile(f, type1.FormatNoEExec)
+	if err != nil {
+		return nil, 4
+	}
+	n := []int{0, 1, 2, 8, 5}[t.Choose(5)]
+	for name := range f.Glyphs {
+		key := []byte("\n/" + name + " ")
+		at := bytes.Index(file, key)
+		if at < 0 {
+			continue
+		}
+		j := at + len(key)
+		l := 0
+		for j < len(file) && file[j] >= '0' && file[j] <= '9' {
+			l = l*10 + int(file[j]-'0')
+			j++
+		}
+		if !bytes.HasPrefix(file[j:], []byte(" RD ")) || j+4+l > len(file) || l < 4 {
+			continue
+		}
+		cipher := file[j+4 : j+4+l]
+		// decrypt with the standard charstring cipher (key 4330), drop the 4
+		// lead bytes, encrypt again with n lead bytes
+		r := uint16(4330)
+		plain := make([]byte, l)
+		for i, c := range cipher {
+			plain[i] = c ^ byte(r>>8)
+			r = (uint16(c)+r)*52845 + 22719
+		}
+		plain = plain[4:]
+		in := append(make([]byte, n), plain...)
+		r = 4330
+		out := make([]byte, len(in))
+		for i, p := range in {
+			c := p ^ byte(r>>8)
+			r = (uint16(c)+r)*52845 + 22719
+			out[i] = c
+		}
+		file = replaceCharstring(file, name, out)
+	}
+	marker := []byte("/Private 15 dict dup begin\n")
+	k := bytes.Index(file, marker)
+	if k < 0 {
+		return nil, 4
+	}
+	ins := []byte(fmt.Sprintf("/lenIV %d def\n", n))
+	file = append(append(append([]byte{}, file[:k+len(marker)]...), ins...), file[k+len(marker):]...)
+	return file, n
 }
